@@ -225,6 +225,8 @@ def model_rows(forests):
                                       "root": opt(p[7]), "unit": opt(p[8])})
         elif p[0] == "KIDS":
             cur.setdefault("kids", {})[int(p[1])] = [(int(x.split("@")[0]), [int(y) for y in x.split("@")[1].split(".") if y]) for x in p[2:] if x]
+        elif p[0] == "ENTRIES":
+            cur.setdefault("entries", []).extend((int(x.split("@")[0]), [int(y) for y in x.split("@")[1].split(".") if y]) for x in p[2:] if x)
         elif p[0] == "FIND":
             cur["find"][int(p[1])] = {int(x.split("=")[0]): (None if x.split("=")[1] == "-" else tuple(int(y) for y in x.split("=")[1].split(":"))) for x in p[2:] if x}
         elif p[0] == "END":
